@@ -26,6 +26,24 @@ type Batch struct {
 	cachedDataSize int64                 // 当前已缓存数据量
 }
 
+// 批次 ID 生成节点, 进程内唯一: 每个批次新建节点会使同一毫秒内创建的批次得到相同的 ID,
+// 未写入完成标识的批次残留的记录会在重启时被后一个同 ID 批次的完成标识一并生效
+var (
+	batchIDNode     *snowflake.Node
+	batchIDNodeOnce sync.Once
+)
+
+func nextBatchID() snowflake.ID {
+	batchIDNodeOnce.Do(func() {
+		node, err := snowflake.NewNode(1)
+		if err != nil {
+			panic(fmt.Sprintf("snowflake.NewNode(1) failed: %v", err))
+		}
+		batchIDNode = node
+	})
+	return batchIDNode.Generate()
+}
+
 func (db *DB) NewBatch(options BatchOptions) *Batch {
 	// 保证批处理期间禁用 DB 客户端使用, 保证 Batch 客户端保存全量最新数据
 	db.mu.Lock()
@@ -35,11 +53,7 @@ func (db *DB) NewBatch(options BatchOptions) *Batch {
 		options:   options,
 		committed: false,
 	}
-	node, err := snowflake.NewNode(1)
-	if err != nil {
-		panic(fmt.Sprintf("snowflake.NewNode(1) failed: %v", err))
-	}
-	batch.batchID = node.Generate()
+	batch.batchID = nextBatchID()
 	verifBatch(uint64(batch.batchID))
 	return batch
 }
